@@ -774,6 +774,11 @@ func (r *rateLimiter) calculateUpstreamCondition(limitStore _interface.LimitStor
 			if !ok {
 				continue
 			}
+			if (status.MaxRequestsInflight != nil && flowControlConfig.MaxRequestsInflight == nil) ||
+				(status.TokenBucket != nil && flowControlConfig.TokenBucket == nil) {
+				// a status recorded under the schema's former type: there is nothing to compare it with
+				continue
+			}
 			switch {
 			case status.MaxRequestsInflight != nil:
 				level += float64(status.MaxRequestsInflight.Max) / float64(flowControlConfig.MaxRequestsInflight.Max)
